@@ -130,6 +130,9 @@ class BV:
             return self.mk(z3.Extract(w1 - 1, 0, x), ty)
         return self.mk((z3.SignExt if is_signed(v.ty) else z3.ZeroExt)(w1 - w0, x), ty)
 
+    def ite(self, c, a, b):
+        return Sc(Sym(z3.If(c, self.term(a), self.term(b))), a.ty)
+
     def table(self, name, values, idx, ety):
         short = name.replace("static ", "")
         it = self.term(idx)
@@ -478,6 +481,11 @@ class INT:
             return Sc(v.v, ty)
         r = self.low_bits(v, w1)
         return Sc(r.v, ty)
+
+    def ite(self, c, a, b):
+        alo, ahi, atz = self.rng(a)
+        blo, bhi, btz = self.rng(b)
+        return Sc(Sym(z3.If(c, self.term(a), self.term(b)), min(alo, blo), max(ahi, bhi), min(atz, btz)), a.ty)
 
     def table(self, name, values, idx, ety):
         raise Unsupported("INT: symbolic table lookup " + name)
